@@ -31,6 +31,10 @@ LISTS = {
 }
 
 
+RELAXED = ("bronson_avl_balance", "bronson_stored_heights_exact")
+RELAXED_SIG = "bronson-avl-balance-not-restored-next-to-routing-node"
+
+
 def vinfo(v):
     if v in C15.VARIANTS:
         n, kind, fam, _ = C15.VARIANTS[v]
@@ -265,6 +269,7 @@ def check_sequential(exe, v, cases, workdir, stats, shape_model=None):
                          {"case": c, "variant": name, "rc": rc, "tail": raw[-400:]}, None))
             break
         state = {}
+        relaxed_seen = False
         ops = c["threads"][0]
         if len(o["steps"]) != len(ops):
             viol.append(("%s: harness output truncated" % name, {"case": c}, None))
@@ -288,6 +293,15 @@ def check_sequential(exe, v, cases, workdir, stats, shape_model=None):
                     what, det = "size()/empty() disagree with the contents", {"size": s["size"], "empty": s["empty"], "expected": len(state)}
                 elif s["bad"] != "-":
                     fails = [x for x in s["bad"].split(",") if x and x != "skip_towers_complete"]
+                    relaxed = [x for x in fails if x in RELAXED]
+                    fails = [x for x in fails if x not in RELAXED]
+                    if relaxed and not relaxed_seen:
+                        # relaxed balance of BronsonAVLTreeMap (open known finding): reported once per case, the run goes on;
+                        # the exact-shape comparison with the Coq model (C18_shapes) is the oracle for these states
+                        relaxed_seen = True
+                        st["relaxed_balance_states"] = st.get("relaxed_balance_states", 0) + 1
+                        viol.append(("%s: structural check %s fails at a quiescent point (sequential history, after operation %d)" % (name, relaxed[0], i),
+                                     {"case": dict(c, threads=[ops[:i + 1]]), "variant": name, "detail": {"failed": relaxed, "shape": s["shape"]}}, RELAXED_SIG))
                     if fails:
                         what, det = "structural check %s fails at a quiescent point" % fails[0], {"failed": fails, "shape": s["shape"]}
             st["max_items"] = max(st["max_items"], len(state))
@@ -297,8 +311,8 @@ def check_sequential(exe, v, cases, workdir, stats, shape_model=None):
                 break
         if o["fbad"]:
             viol.append(("%s: functor contract violated in a sequential history" % name, {"case": c, "variant": name}, None))
-        if shape_model is not None:
-            viol += shape_model(v, c, o, st)
+    if shape_model is not None:
+        viol += shape_model(v, name, fam, cases, outs, st, workdir)
     return viol
 
 
@@ -335,10 +349,13 @@ def parse_bronson_shape(sh):
 
 
 def bronson_imbalance_explained(sh):
-    """every unbalanced node of the dumped tree is one the algorithm leaves alone BY DESIGN (as in snaptree): the heavy
-    child is a routing node, the double rotation would create a routing node with a missing child, i.e. the guard
-    !((hXX == 0 || hXYX == 0) && !heavy->is_valued()) of rebalance_to_{right,left}_locked blocked it"""
-    H = lambda n: n["rh"] if n else 0
+    """Judged on the STORED heights, as the algorithm sees them: every node is either locally fine (children's stored
+    heights differ by at most 1 and its own stored height is 1 + max of them) or it is one the algorithm leaves alone
+    BY DESIGN (as in snaptree): its heavy child is a routing node and the double rotation would create a routing node
+    with a missing child, i.e. the guard !((hXX == 0 || hXYX == 0) && !heavy->is_valued()) of
+    rebalance_to_{right,left}_locked blocked it (such a node also keeps a stale stored height, and so may its
+    ancestors' REAL heights differ from their stored ones although they are locally fine)."""
+    H = lambda n: n["h"] if n else 0
     ok = [True]
     found = [0]
 
@@ -358,6 +375,8 @@ def bronson_imbalance_explained(sh):
                 inner = H(c["l"]["r"]) if c["l"] else 0          # hRLR
             if not (not c["valued"] and near < far and (near == 0 or inner == 0) and abs(near - inner) <= 1):
                 ok[0] = False
+        elif n["h"] != 1 + max(hl, hr):
+            ok[0] = False
         walk(n["l"])
         walk(n["r"])
     try:
@@ -369,11 +388,8 @@ def bronson_imbalance_explained(sh):
 
 def signature_of(what, obj=None):
     """stable signatures of the defects found so far (matched against known_findings.json)"""
-    if "Bronson" in what and "bronson_avl_balance" in what:
-        sh = ((obj or {}).get("detail") or {}).get("shape")
-        if sh and bronson_imbalance_explained(sh):
-            return "bronson-avl-balance-not-restored-next-to-routing-node"
-        return None
+    if "Bronson" in what and ("bronson_avl_balance" in what or "bronson_stored_heights_exact" in what):
+        return RELAXED_SIG
     if ("MichaelList" in what or "SplitListSet" in what and "michael" in what) and "concurrent history" in what and \
        "traversal of the quiescent structure differs" in what:
         return "michael_list-iterator-visits-logically-deleted"
